@@ -23,7 +23,8 @@ async fn verif_replay_hist_store_image() {
             H::EnvWritten => Workflow::new().with_id("vh").with_input("a", serde_json::json!(1))
                 .with_step(|s| s.with_id("step1").with_act(Act::code(r#"$env.cnt = 7; $env.who = "script";"#).with_id("c1")))
                 .with_step(|s| s.with_id("step2").with_act(Act::irq(|a| a.with_key("act2")))),
-            _ => Workflow::new().with_id("vh").with_input("a", serde_json::json!(1))
+            // `a` is an input AND an output of the workflow: the step receives a copy of it, so a later write lands in two scopes (both must be stored)
+            _ => Workflow::new().with_id("vh").with_input("a", serde_json::json!(1)).with_output("a", serde_json::json!(null))
                 .with_step(|s| s.with_id("step1").with_act(Act::irq(|a| a.with_key("act1"))))
                 .with_step(|s| s.with_id("step2").with_act(Act::irq(|a| a.with_key("act2")))),
         };
